@@ -74,12 +74,17 @@ class _FloatToFraction(ast.NodeTransformer):
 
 
 def float_const_to_fraction(node, source):
-    """Exact decimal value of a float literal *as written* in the source."""
+    """Exact decimal value of a float literal *as written* in the source (memoised on the AST node)."""
+    got = getattr(node, '_exact_fraction', None)
+    if got is not None:
+        return got
     txt = ast.get_source_segment(source, node)
     try:
-        return Fraction(txt) if txt is not None else Fraction(repr(node.value))
+        got = Fraction(txt) if txt is not None else Fraction(repr(node.value))
     except (ValueError, ZeroDivisionError):
-        return Fraction(repr(node.value))
+        got = Fraction(repr(node.value))
+    node._exact_fraction = got
+    return got
 
 
 class FuncInfo:
